@@ -475,6 +475,22 @@ func propC08(c *Ctx, r *Report) {
 			r.audited("C08/unique-inserts", cons, c.ipos(st.Site), why)
 			continue
 		}
+		// the statement moved into a helper shared by audited functions: covered when every owner is
+		if isNewHelper(st.Fn) {
+			var whys []string
+			all := true
+			for _, on := range c.ownerNames(st.Fn) {
+				if why, ok := auditedInsert[on+" "+st.Table]; ok {
+					whys = append(whys, why)
+				} else {
+					all = false
+				}
+			}
+			if all && len(whys) > 0 {
+				r.audited("C08/unique-inserts", strings.Join(c.ownerNames(st.Fn), "/")+" "+st.Table, c.ipos(st.Site), strings.Join(dedupStrings(whys), "; "))
+				continue
+			}
+		}
 		r.viol("C08/unique-inserts", cons, c.ipos(st.Site), fmt.Sprintf("plain INSERT into %s (unique key %v) with a key taken from chain content and no guard that the key is new: the only duplicate guard, IsReplayTransaction, consults pn_address_transactions, which is written on execution only. An entry written twice in one block, or again while its first copy is pending or after it was rejected, makes this INSERT fail and with it the block, at every retry", st.Table, t.Uniques))
 	}
 
@@ -682,10 +698,18 @@ func convertVerdicts(c *Ctx, r *Report, rule string) {
 			continue
 		}
 		for _, t := range nilTestsOf(c, ev) {
+			// the verdict may be kept in a flag and acted on after the loop (`drop = true; break` ... `if drop { return nil }`)
+			if c.dropsByFlag(t.If.Block(), t.S) {
+				dropped[argKey(ci)] = true
+			}
 			// the error branch returns nil or a sentinel: the batch is dropped, the block goes on
 			for _, ins := range t.S.Instrs {
 				if ret, ok := ins.(*ssa.Return); ok {
-					op := resolveSpill(ret.Results[0])
+					ei := errResultIndex(ret.Parent().Signature)
+					if ei < 0 || ei >= len(ret.Results) {
+						continue
+					}
+					op := resolveSpill(ret.Results[ei]) // the error result (a verdict helper also returns a flag)
 					if _, isSent := isGlobalErrLoad(op); isNilConst(op) || isSent {
 						// must precede the simulation/recording: it lies in the first loop over the transactions
 						dropped[argKey(ci)] = true
@@ -951,11 +975,31 @@ func (u *u64Classifier) walk(v ssa.Value, depth int, seen map[ssa.Value]bool, ou
 				return
 			}
 		}
+	case *ssa.Field:
+		// a field of a private struct handed over by value: what the callers stored into that field
+		if srcs := u.c.structFieldSources(x.X, x.Field, 0); len(srcs) > 0 {
+			for _, src := range srcs {
+				u.walk(src, depth+1, seen, out)
+			}
+			return
+		}
 	case *ssa.UnOp:
 		if x.Op == token.MUL {
 			if ia, ok := x.X.(*ssa.IndexAddr); ok {
 				u.element(ia.X, depth, seen, out)
 				return
+			}
+			if fa, ok := x.X.(*ssa.FieldAddr); ok {
+				if al, ok := fa.X.(*ssa.Alloc); ok {
+					if _, named := u64BoundedFields[typePath(v)]; !named {
+						if srcs := u.c.structFieldSources(&ssa.UnOp{Op: token.MUL, X: al}, fa.Field, 0); len(srcs) > 0 {
+							for _, src := range srcs {
+								u.walk(src, depth+1, seen, out)
+							}
+							return
+						}
+					}
+				}
 			}
 		}
 		if x.Op == token.SUB {
@@ -1189,4 +1233,140 @@ func stmtLabel(c *Ctx, ci ssa.CallInstruction) string {
 		}
 	}
 	return "statement in " + fname(ci.Parent())
+}
+
+// dropsByFlag: every way on from the edge from->to - following merged variables with the values they take on this
+// way, and tests on them - ends in a return of a nil or sentinel error without any statement or upstream call on the way.
+func (c *Ctx) dropsByFlag(from, to *ssa.BasicBlock) bool {
+	eff := computeEffectsCached(c)
+	okAll, any := true, false
+	var resolve func(v ssa.Value, env map[ssa.Value]ssa.Value, d int) ssa.Value
+	resolve = func(v ssa.Value, env map[ssa.Value]ssa.Value, d int) ssa.Value {
+		if d > 6 {
+			return v
+		}
+		if w, ok := env[v]; ok && w != v {
+			return resolve(w, env, d+1)
+		}
+		if ph, ok := v.(*ssa.Phi); ok {
+			// a loop variable that is only ever (re)assigned one constant
+			var k ssa.Value
+			for _, e := range ph.Edges {
+				if e == ssa.Value(ph) {
+					continue
+				}
+				if p2, isP := e.(*ssa.Phi); isP {
+					e = resolve(p2, env, d+1)
+				}
+				if _, isK := e.(*ssa.Const); !isK {
+					return v
+				}
+				if k != nil && k.(*ssa.Const).Value != e.(*ssa.Const).Value {
+					return v
+				}
+				k = e
+			}
+			if k != nil {
+				return k
+			}
+		}
+		return v
+	}
+	var walk func(prev, cur *ssa.BasicBlock, env map[ssa.Value]ssa.Value, hop int)
+	walk = func(prev, cur *ssa.BasicBlock, env map[ssa.Value]ssa.Value, hop int) {
+		if hop > 8 || !okAll {
+			okAll = okAll && hop <= 8
+			return
+		}
+		pi := -1
+		for i, p := range cur.Preds {
+			if p == prev {
+				pi = i
+			}
+		}
+		for _, ins := range cur.Instrs {
+			switch x := ins.(type) {
+			case *ssa.Phi:
+				if pi >= 0 {
+					env[x] = x.Edges[pi]
+				}
+			case ssa.CallInstruction:
+				if primEffect(x.Common()) != "" {
+					okAll = false
+					return
+				}
+				if sc := x.Common().StaticCallee(); sc != nil && fnInModule(sc) && eff.Effectful[sc] {
+					okAll = false
+					return
+				}
+			case *ssa.If:
+				cond := x.Cond
+				neg := false
+				if u, ok := cond.(*ssa.UnOp); ok && u.Op == token.NOT {
+					cond, neg = u.X, true
+				}
+				known, val := false, false
+				if k, ok := resolve(cond, env, 0).(*ssa.Const); ok && k.Value != nil && k.Value.Kind() == constant.Bool {
+					known, val = true, constant.BoolVal(k.Value) != neg
+				} else if bo, ok := cond.(*ssa.BinOp); ok && (bo.Op == token.NEQ || bo.Op == token.EQL) {
+					var other ssa.Value
+					if isNilConst(bo.Y) {
+						other = bo.X
+					} else if isNilConst(bo.X) {
+						other = bo.Y
+					}
+					if other != nil {
+						rv := resolve(other, env, 0)
+						if isNilConst(rv) {
+							known, val = true, (bo.Op == token.EQL) != neg
+						}
+					}
+				}
+				cp := func() map[ssa.Value]ssa.Value {
+					m := map[ssa.Value]ssa.Value{}
+					for k, v := range env {
+						m[k] = v
+					}
+					return m
+				}
+				if known {
+					if val {
+						walk(cur, cur.Succs[0], cp(), hop+1)
+					} else {
+						walk(cur, cur.Succs[1], cp(), hop+1)
+					}
+				} else {
+					walk(cur, cur.Succs[0], cp(), hop+1)
+					walk(cur, cur.Succs[1], cp(), hop+1)
+				}
+				return
+			case *ssa.Jump:
+				walk(cur, cur.Succs[0], env, hop+1)
+				return
+			case *ssa.Return:
+				any = true
+				ei := errResultIndex(x.Parent().Signature)
+				if ei < 0 || ei >= len(x.Results) {
+					okAll = false
+					return
+				}
+				op := resolve(resolveSpill(x.Results[ei]), env, 0)
+				if _, isSent := isGlobalErrLoad(op); !(isNilConst(op) || isSent) {
+					okAll = false
+				}
+				return
+			}
+		}
+	}
+	walk(from, to, map[ssa.Value]ssa.Value{}, 0)
+	return okAll && any
+}
+
+var effMemo *Effects
+
+func computeEffectsCached(c *Ctx) *Effects {
+	if effMemo == nil {
+		effMemo = computeEffects(c)
+	}
+	return effMemo
 }
